@@ -17,7 +17,7 @@
    The merge of a purged-empty operand was a defect of the code, repaired (fixes/12_1_fi_merge_purged_empty.patch); the old
    behaviour is refuted in Regression_fi.v. *)
 From Coq Require Import ZArith NArith List Bool Lia Permutation Sorting.Sorted.
-From DS Require Import Word Murmur3 RunnerLib FiDefs FiProofs FiMapProofs FiDelProofs FiIterProofs FiRefine FiEps FiSerProofs.
+From DS Require Import Word Murmur3 RunnerLib FiDefs FiProofs FiMapProofs FiDelProofs FiIterProofs FiRefine FiEps FiSerProofs FiRunProofs.
 Import ListNotations.
 Local Open Scope Z_scope.
 
@@ -102,6 +102,22 @@ Proof.
   intros kind s t T R Ok Hne. exists (sk_roundtrip item item_eqb (fi_hash kind) s).
   split; [exact (ser_roundtrip kind s Ok)|now apply SR_roundtrip].
 Qed.
+
+(* the rows printed by the model come in descending estimate order (the implementation's order is checked by the oracle) *)
+Theorem C12_sk_rows_sorted : forall off (l : list (cell item)),
+  StronglySorted (fun a b => cv item b + off <= cv item a + off) (rows_by_est l).
+Proof. exact rows_by_est_sorted. Qed.
+
+(* the interpreter of the line protocol itself (FiDefs.run is what is extracted): for EVERY script in which each serialize
+   operation meets its side condition (fields fit the image; not purged-empty), every query answer (opcode 3: estimate, lower
+   bound, upper bound, maximum error, total weight) and every dump (opcode 5: total weight) satisfies the property against the
+   ghost log of exact weights *)
+Theorem C12_step_ok : forall s o e, RegsOk s -> op_safe s o ->
+  RegsOk (fst (step s o e)) /\ out_ok o (snd (step s o e)).
+Proof. exact step_ok. Qed.
+
+Theorem C12_run_ok : forall ops, script_safe [] ops -> Forall2 (fun oe out => out_ok (fst oe) out) ops (run ops).
+Proof. exact run_ok. Qed.
 
 (* ===================== Part B: the abstract sketch (L1), purges with ANY decrement ===================== *)
 Section AnyItem.
@@ -245,6 +261,20 @@ Example C12_ser_nonvacuous :
   (exists s', sk_deserialize 2 (sk_serialize 2 s) = Some s' /\ sk_lb item item_eqb (fi_hash 2) s' [97; 98] = 7).
 Proof. split; [vm_compute; reflexivity|]. eexists. split; [vm_compute; reflexivity|vm_compute; reflexivity]. Qed.
 
+(* a script (new, seven updates that trigger a purge, merge into a second sketch, queries): its side conditions hold and the
+   interpreter answers est 0, lb 0, ub 1, maximum error 1, total 7 against true weight 1, true total 7 *)
+Definition demo_script : list opline :=
+  map (fun o => (o, [])) ([[1;0;0;3;3]] ++ map (fun i => [2;0;1;i]) [0;1;2;3;4;5;6] ++ [[1;1;0;3;3]; [2;1;5;100]; [4;1;0]; [3;0;0;0]; [3;1;0;0]]).
+Example C12_run_nonvacuous :
+  script_safe [] demo_script /\
+  nth 11 (run demo_script) ([], []) = ([0; 0; 1; 1; 7; 0], [1; 7]) /\
+  nth 12 (run demo_script) ([], []) = ([0; 0; 1; 1; 12; 1], [1; 12]).
+Proof.
+  split; [|split; vm_compute; reflexivity].
+  unfold demo_script. cbn [map app script_safe op_safe].
+  repeat (split; [intros [E|E]; discriminate|]). exact I.
+Qed.
+
 (* seven distinct items of weight 1 in a map of capacity 6: the purge (median 1) removes every counter *)
 Example C12_purge_can_wipe_the_map :
   nact _ (sk_map _ purged_empty) = 0 /\ sk_tot _ purged_empty = 7 /\ sk_off _ purged_empty = 1.
@@ -274,6 +304,9 @@ Print Assumptions C12_sk_no_false_positives.
 Print Assumptions C12_sk_eps_bound.
 Print Assumptions C12_ser_roundtrip.
 Print Assumptions C12_ser_roundtrip_bracket.
+Print Assumptions C12_sk_rows_sorted.
+Print Assumptions C12_step_ok.
+Print Assumptions C12_run_ok.
 Print Assumptions C12_map_get.
 Print Assumptions C12_map_insert.
 Print Assumptions C12_map_delete.
